@@ -88,13 +88,13 @@ type ctl struct {
 	broken  string
 }
 
-// the worker the harness expects to serve a key (what locHash computes); < 0: the caller panics
+// the worker the harness expects to serve a key (what the repaired locHash computes: reduce, then absolute value)
 func route(g *grpSpec, k int64) int {
-	h := mkKey(g.Kind, k).HashedInt()
+	h := mkKey(g.Kind, k).HashedInt() % g.N
 	if h < 0 {
 		h = -h
 	}
-	return h % g.N
+	return h
 }
 
 // number of 10 s bounds that expired in this process: after a few of them the remaining runs are not attempted
